@@ -17,6 +17,26 @@ SAFE_TEXT = st.one_of(
         lambda s: s not in (".", "..")),
 )
 
+# different texts that parse to one number: distinct partitions all the same
+SAME_NUMBER = [["1", "01", "1.0", "+1", "1e0"], ["0.5", ".5", "0.50"], ["10", "1e1", "10.0", "010"], ["-3", "-3.0", "-03"],
+               ["7", "7.0", "07"]]
+
+
+@st.composite
+def text_pool(draw, max_size=4, min_size=None):
+    if draw(st.integers(0, 3)) == 0:
+        fam = draw(st.sampled_from(SAME_NUMBER))
+        k = draw(st.integers(2, min(len(fam), max_size)))
+        pool = list(draw(st.permutations(fam)))[:k]
+        if len(pool) < max_size and draw(st.booleans()):
+            extra = draw(SAFE_TEXT)
+            if extra not in pool:
+                pool.append(extra)
+        return pool
+    return draw(st.lists(SAFE_TEXT, min_size=draw(st.sampled_from([1, 2, 2])) if min_size is None else min_size,
+                         max_size=max_size, unique=True))
+
+
 DAY_NS = 86400 * 10 ** 9
 
 
@@ -56,12 +76,12 @@ def partition_column(draw, name, kinds=("int", "float", "bool", "datetime", "tex
         col["pool"] = draw(st.lists(st.sampled_from(cands), min_size=draw(st.sampled_from([1, 2, 2])), max_size=4, unique=True))
     elif kind == "text":
         col["sub"] = draw(st.sampled_from(["object", "object", "str"]))
-        col["pool"] = draw(st.lists(SAFE_TEXT, min_size=draw(st.sampled_from([1, 2, 2])), max_size=4, unique=True))
+        col["pool"] = draw(text_pool(4))
         if nulls and draw(st.integers(0, 4)) == 0:
             null = draw(frames.null_spec(True, ["some", "first_only", "last_only"]))
     else:
         col["labels"] = "text"
-        col["cats"] = draw(st.lists(SAFE_TEXT, min_size=1, max_size=5, unique=True))
+        col["cats"] = draw(text_pool(5, min_size=1))
         col["ordered"] = False
         if nulls and draw(st.integers(0, 4)) == 0:
             null = draw(frames.null_spec(True, ["some", "first_only"]))
